@@ -130,6 +130,73 @@ def run(ctx):
         esc = [c for c in wl.calls if c.name == "escape_text"]
         r.check(len(esc) == 1 and any(d.startswith("needs_escape(") and l == "true" for d, l, _ in dom_guards(wl, esc[0].block)), "write_string_literal/escaped-iff-needs_escape", where(wl), "quoted text is escaped exactly when needs_escape(literal)")
 
+    with ctx.rule("C09.R1b", "T1", "a record written without the outer record's braces brings its own", floor=4) as r:
+        # `@a 5`: the only item of a record with attributes is written without braces. If that item is a record, its own body would be
+        # read back as the outer record's body (`@a {1,2}`), so the printer handed to it must add braces around a record.
+        SP = "printer::StructurePrinter"
+        def sp_fn(name, trait=None):
+            bs = [b for b in rc.all_bodies() if SP in b.defpath.split(" as ")[0] and b.meta.get("name") == name and "{closure" not in b.defpath and (trait is None or trait in b.defpath)]
+            if len(bs) != 1:
+                raise AnchorMissing("StructurePrinter::%s (%d found)" % (name, len(bs)))
+            return ctx.saw(bs[0])
+        wv = sp_fn("write_value", "BodyWriter")
+        rec = sp_fn("record", "StructuralWriter")
+        dn = sp_fn("done", "BodyWriter")
+
+        def braces(b, ch):
+            return [c for c in b.calls if c.name == "write_str" and len(c.args) == 2 and describe_operand(b, c.args[1]) == "'%s'" % ch]
+
+        def field_guard(b, c):
+            return [(d.split(".")[-1], l) for d, l, _ in dom_guards(b, c.block) if d.startswith("self.")]
+        # record(): an opening brace under a flag of the printer
+        opens = [(c, field_guard(rec, c)) for c in braces(rec, "{")]
+        flags = sorted({f for c, g in opens for f, l in g if l == "true"})
+        r.check(len(opens) == 1 and len(flags) == 1, "record/opens-a-brace-when-flagged", opens[0][0].loc() if opens else where(rec), "record() writes '{' when the printer is marked as writing an unbraced single item (flag `%s`)" % (flags[0] if flags else "?"),
+                "StructurePrinter::record never writes an opening brace of its own: `@a {{1,2}}` is printed as `@a {1,2}`, `@a {@b}` as `@a @b`, and the derived form of a tuple struct around a struct cannot be read back")
+        flag = flags[0] if flags else None
+        # who sets the flag
+        setters = set()
+        if flag:
+            for b in rc.all_bodies():
+                if SP in b.defpath and "{closure" not in b.defpath:
+                    for i, j, p_, rv, line in b.assigns():
+                        if describe_place(b, p_).endswith("." + flag) and rv[0] == "use" and rv[1][0] == "k" and rv[1][1].get("b") is True:
+                            setters.add(b.meta.get("name"))
+        # write_value: every nested write either happens inside the outer record's braces / without attributes, or goes to a flagged printer
+        wws = [c for c in wv.calls if c.name == "write_with"]
+        if not wws:
+            raise AnchorMissing("write_value: no nested write_with")
+        open_blocks = {c.block for c in braces(wv, "{")}
+        discharge = []
+        for sb in range(wv.n):
+            if wv.is_cleanup(sb) or wv.term(sb)["k"] != "switch":
+                continue
+            d = switch_desc(wv, sb)
+            t = wv.term(sb)
+            arms = {int(v) if isinstance(v, str) else v: tb for v, tb in t["arms"]}
+            if set(arms) == {0}:
+                tr, fa = t["otherwise"], arms[0]
+            elif set(arms) == {1}:
+                tr, fa = arms[1], t["otherwise"]
+            else:
+                continue
+            if d == "self.has_attr":
+                discharge.append((sb, fa))
+            elif d == "self.brace_written":
+                discharge.append((sb, tr))
+        r.check(len(discharge) >= 2, "write_value/anchors", where(wv), "has_attr and brace_written are tested before a nested value is written")
+        mark_blocks = {c.block for c in wv.calls if c.name in setters and SP in (c.defpath or "")}
+        for k, c in enumerate(wws):
+            ok, wit = wv.must_pass_edges([0], open_blocks | mark_blocks, discharge_edges=discharge, targets={c.block})
+            r.check(ok, "write_value/nested#%d/inside-braces-or-marked" % k, c.loc(), "the nested value is written inside the outer braces, or without attributes, or by a printer marked through %s()" % ("/".join(sorted(setters)) or "?"),
+                    "write_value hands an ordinary printer to the only item of a record with attributes: if the item is a record its body is printed in the outer record's place (`@a {{1,2}}` -> `@a {1,2}`)")
+        # the brace opened by record() is closed by done(), and only then
+        if flag:
+            closeflag = sorted({describe_place(rec, p_).split(".")[-1] for i, j, p_, rv, line in rec.assigns() if rv[0] == "use" and rv[1][0] == "k" and rv[1][1].get("b") is True and describe_place(rec, p_).startswith("self.")} - {flag})
+            closes = [c for c in braces(dn, "}") if any(f in closeflag and l == "true" for f, l in field_guard(dn, c))]
+            r.check(len(closeflag) == 1 and len(closes) == 1 and opens and rec.dominates(opens[0][0].block, [i for i, j, p_, rv, line in rec.assigns() if describe_place(rec, p_).endswith("." + closeflag[0])][0]) if closeflag else False,
+                    "done/closes-what-record-opened", closes[0].loc() if closes else where(dn), "record() remembers the brace in `%s` and done() writes the matching '}'" % (closeflag[0] if closeflag else "?"), "the brace opened by record() is not closed by done()")
+
     with ctx.rule("C09.R2", "T5", "escape tables of printer and tokenizer are mutually inverse", floor=12) as r:
         et = ctx.saw(md.fn(suffix="literal::escape_text"))
         # every write to the output, by the arm of the match on the current character that it belongs to
@@ -369,6 +436,48 @@ def run(ctx):
         kinds = lambda b: sorted({"string" if d.endswith("string_literal") else "identifier" for d, w in refs(b) if d.endswith("string_literal") or d.endswith("::identifier")})
         r.check(kinds(an) == kinds(anf), "attr_name_final/accepts-what-attr_name-accepts", where(anf), "an attribute name at the end of the input may be %s, as anywhere else" % " or ".join(kinds(anf)),
                 "attr_name accepts %s but attr_name_final only %s: `@\"two words\"` (what the printers write for a record ending in such an attribute) does not parse" % (kinds(an), kinds(anf)))
+
+    with ctx.rule("C09.R3d", "T5", "an attribute-only record ends wherever a value may end", floor=4) as r:
+        # after `@k` with nothing behind it the parser must recognise every token that can follow a value inside a body as the end of
+        # the (empty) record: the followers accepted by parse_after_value (a key may be followed by ':') and by parse_after_slot
+        def lits(b, names=("char", "one_of")):
+            out = set()
+            for x in [b] + rc.closures_of(b.meta.get("def") or b.defpath):
+                for c in x.calls:
+                    if c.name in names and c.args:
+                        d = describe_operand(x, c.args[0])
+                        if d.startswith("'") and d.endswith("'"):
+                            out |= set(d[1:-1].encode().decode("unicode_escape"))
+                        elif "end_delim" in d:
+                            out.add("<end_delim>")
+            return out
+
+        def named(b, nm):
+            return any(d.endswith("::" + nm) for x in [b] + rc.closures_of(b.meta.get("def") or b.defpath) for d, w in refs(x))
+        paa = ctx.saw(rc.fn(suffix="record::parse_after_attr"))
+        pav = ctx.saw(rc.fn(suffix="record::parse_after_value"))
+        pas = ctx.saw(rc.fn(suffix="record::parse_after_slot"))
+        delims = set()
+        for b in rc.all_bodies():
+            if b.meta.get("name") == "end_delim" and " as " in b.defpath:
+                for i, j, p_, rv, line in b.assigns():
+                    if p_[0] == 0 and not p_[1]:
+                        d = describe_rvalue(b, rv)
+                        if d.startswith("'"):
+                            delims.add(d[1:-1])
+        if delims != {")", "}"}:
+            raise AnchorMissing("ItemsKind::end_delim values: %s" % sorted(delims))
+        followers = set()
+        for b in (pav, pas):
+            for ch in lits(b):
+                followers |= delims if ch == "<end_delim>" else {ch}
+        enders = lits(paa, names=("one_of",))
+        r.check({":"} <= followers and delims <= followers, "followers/anchors", where(pav), "a value in a body may be followed by %s, a separator or a new line" % sorted(followers))
+        for ch in sorted(followers):
+            r.check(ch in enders, "parse_after_attr/ends-before-%r" % ch, where(paa), "`@k%s` ends the attribute-only record" % ch,
+                    "parse_after_value accepts %r after a value but parse_after_attr does not take it as the end of an attribute-only record: `{@k%s1}` (printed for a slot whose key is `@k`) does not parse" % (ch, ch))
+        for nm in ("separator", "line_ending"):
+            r.check(named(paa, nm) or not named(pav, nm), "parse_after_attr/ends-before-%s" % nm, where(paa), "a %s ends the attribute-only record" % nm.replace("_", " "))
 
     with ctx.rule("C09.R3c", "T5", "a decoder that wraps RecognizerDecoder tells it when the input has ended", floor=3) as r:
         # RecognizerDecoder::decode cannot finish a value that is only complete at the end of the input (a top-level scalar, a record that
